@@ -239,16 +239,16 @@ fn observe<V: VK>(vec: &V, b: usize) -> Obs {
         }
     }
     let mut mh = Vec::new();
-    for k in 0..nb {
-        let cnt = (k * b..(k + 1) * b).filter(|i| holes.contains(i)).count();
+    let mut per_block: BTreeMap<usize, usize> = BTreeMap::new();
+    for &h in &holes {
+        *per_block.entry(h / b).or_default() += 1;
+    }
+    for (k, cnt) in per_block {
         if cnt == b {
             mh.push(k);
-        } else if cnt != 0 && bad.is_none() {
+        } else if bad.is_none() {
             bad = Some(format!("block {k}: {cnt} of {b} slots deleted"));
         }
-    }
-    if holes.iter().any(|&h| h >= nb * b) && bad.is_none() {
-        bad = Some(format!("deleted slot beyond len: {:?}", holes));
     }
     Obs { len: if b > 0 { len / b } else { len }, view: mv, holes: mh, stamp: vec.stamp(), bad_block: bad }
 }
@@ -441,9 +441,7 @@ fn run_one<V: VK>(steps: &[Value], cfg: &Cfg, st: &mut Stats, bidx: usize) {
             // a panic (or a vector lost in a failed reimport) ends the behaviour
             let known = !dev.is_empty() && model_res == out.class();
             if known {
-                for d in &dev {
-                    st.known.entry(d.clone()).or_insert((0, json!(steps[..=si].iter().map(short).collect::<Vec<_>>()))).0 += 1;
-                }
+                note_known(st, &dev, steps, si);
             } else {
                 st.violations.push(json!({"behaviour": bidx, "step": si, "op": op, "args": args, "what": format!("outcome {} ({})", out.class(), match &out { Out::Err(e) => e.as_str(), _ => "" }),
                     "expected": step["exp"], "must": must, "steps": steps[..=si].iter().map(short).collect::<Vec<_>>()}));
@@ -458,9 +456,7 @@ fn run_one<V: VK>(steps: &[Value], cfg: &Cfg, st: &mut Stats, bidx: usize) {
                 // reading the vector panicked: known only if the as-is model predicts unreadable (junk) elements
                 let known = !dev.is_empty() && imp.view.contains(&JUNK);
                 if known {
-                    for d in &dev {
-                        st.known.entry(d.clone()).or_insert((0, json!(steps[..=si].iter().map(short).collect::<Vec<_>>()))).0 += 1;
-                    }
+                    note_known(st, &dev, steps, si);
                 } else {
                     st.violations.push(json!({"behaviour": bidx, "step": si, "op": op, "args": args, "what": "reading the vector panicked",
                         "expected": step["exp"], "must": must, "dev": dev, "steps": steps[..=si].iter().map(short).collect::<Vec<_>>()}));
@@ -476,8 +472,12 @@ fn run_one<V: VK>(steps: &[Value], cfg: &Cfg, st: &mut Stats, bidx: usize) {
         };
         let same = |a: &Obs, m: &Obs| a.bad_block.is_none() && a.len == m.len && a.view == m.view && a.holes == m.holes && a.stamp == m.stamp;
         let mut prop_ok = class_ok && same(&o, &exp);
-        let same_impl = |a: &Obs, m: &Obs| a.bad_block.is_none() && a.len == m.len && a.holes == m.holes && a.stamp == m.stamp
-            && a.view.len() == m.view.len() && a.view.iter().zip(m.view.iter()).all(|(x, y)| *y == JUNK || x == y);
+        let same_impl = |a: &Obs, m: &Obs| (a.bad_block.is_none() || m.view.contains(&JUNK)) && a.len == m.len && a.holes == m.holes && a.stamp == m.stamp
+            && match m.view.iter().position(|y| *y == JUNK) {
+                // the as-is model predicts unreadable elements from here on: only the readable prefix is compared
+                Some(p) => a.view.len() >= p && a.view[..p] == m.view[..p],
+                None => a.view == m.view,
+            };
         let impl_ok = out.class() == model_res && same_impl(&o, &imp);
         let mut cut = false;
         if must == "either" && out.class() != model_res {
@@ -522,9 +522,7 @@ fn run_one<V: VK>(steps: &[Value], cfg: &Cfg, st: &mut Stats, bidx: usize) {
                 cut = true;
             }
         } else if impl_ok && !dev.is_empty() {
-            for d in &dev {
-                st.known.entry(d.clone()).or_insert((0, json!(steps[..=si].iter().map(short).collect::<Vec<_>>()))).0 += 1;
-            }
+            note_known(st, &dev, steps, si);
         } else {
             st.violations.push(json!({"behaviour": bidx, "step": si, "op": op, "args": args,
                 "what": format!("outcome {} {}", out.class(), match &out { Out::Err(e) => e.clone(), _ => String::new() }),
@@ -546,6 +544,17 @@ fn run_one<V: VK>(steps: &[Value], cfg: &Cfg, st: &mut Stats, bidx: usize) {
     }
     drop(vec);
     drop(db);
+}
+
+/// count a known-deviation hit; keep the shortest history seen per deviation
+fn note_known(st: &mut Stats, dev: &[String], steps: &[Value], si: usize) {
+    for d in dev {
+        let e = st.known.entry(d.clone()).or_insert((0, json!(steps[..=si].iter().map(short).collect::<Vec<_>>())));
+        e.0 += 1;
+        if e.1.as_array().map(|a| a.len()).unwrap_or(0) > si + 1 {
+            e.1 = json!(steps[..=si].iter().map(short).collect::<Vec<_>>());
+        }
+    }
 }
 
 fn short(s: &Value) -> Value {
